@@ -13,6 +13,7 @@ use sciparse::{
         view::{ScionDpPathView, ScionDpPathViewExt, ScionDpPathViewExtMut, ScionDpPathViewRef},
     },
     identifier::isd_asn::IsdAsn,
+    packet::view::ScionRawPacketView,
     path::{
         ScionPath,
         metadata::{PathMetadata, path_interface::PathInterface},
@@ -216,6 +217,17 @@ pub fn check_std(h: &HdrC) -> Obs {
                 pvs.push(pv("Disagree:expiration", format!("view {} model {} on header {}", a, b, hex(&b0))));
             }
         }
+        // counting queries offered on both sides
+        let vq = catch(|| (v0.hop_field_count() as usize, v0.info_field_count() as usize, [v0.seg0_len(), v0.seg1_len(), v0.seg2_len()]));
+        let mq = catch(|| (m0.hop_field_count(), m0.info_field_count(), m0.segment_sizes(), m0.segment_lengths()));
+        match (vq, mq) {
+            (Ok(a), Ok(b)) => {
+                if a.0 != b.0 || a.1 != b.1 || a.2 != b.2 || (b.3.0, b.3.1, b.3.2) != (a.2[0], a.2[1], a.2[2]) {
+                    pvs.push(pv("Disagree:counts", format!("view (hops, infos, lens) {:?} model {:?} on header {}", a, b, hex(&b0[..4]))));
+                }
+            }
+            (Err(m), _) | (_, Err(m)) => pvs.push(pv(format!("Panic:count-queries:{cls}"), m)),
+        }
         if let Some(vs) = &vsegs {
             let ms: Vec<(Vec<u8>, Vec<Vec<u8>>)> = m0
                 .segments
@@ -293,6 +305,65 @@ pub fn check_std(h: &HdrC) -> Obs {
     Obs { pv: pvs, obs }
 }
 
+/// A raw SCION packet (IPv4 host addresses, 8 payload bytes) around the given path bytes.
+pub fn packet_with_path(path: &[u8], path_type: u8) -> Vec<u8> {
+    let hdr_len = 12 + 24 + path.len();
+    let mut b = Vec::with_capacity(hdr_len + 8);
+    b.extend_from_slice(&[0x00, 0x00, 0x00, 0x01]); // version 0, qos 0, flow id 1
+    b.push(253); // next header: experimental
+    b.push((hdr_len / 4) as u8);
+    b.extend_from_slice(&8u16.to_be_bytes());
+    b.push(path_type);
+    b.push(0x00); // DT/DL/ST/SL: IPv4, 4 bytes
+    b.extend_from_slice(&[0, 0]);
+    b.extend_from_slice(&0x0001_ff00_0000_0220u64.to_be_bytes());
+    b.extend_from_slice(&0x0001_ff00_0000_0110u64.to_be_bytes());
+    b.extend_from_slice(&[10, 0, 0, 2]);
+    b.extend_from_slice(&[10, 0, 0, 1]);
+    b.extend_from_slice(path);
+    b.extend_from_slice(&[0xde, 0xad, 0xbe, 0xef, 1, 2, 3, 4]);
+    b
+}
+
+/// Reverse the path of a packet in place through ScionHeaderView::path_mut().
+/// Returns Some(ok) and the packet after, or None if the packet view refused the buffer.
+fn packet_reverse(pkt: &[u8]) -> Option<Result<(bool, Vec<u8>), String>> {
+    if pkt.len() > 36 + 984 + 8 || ScionRawPacketView::try_from_slice(pkt).is_err() {
+        return None;
+    }
+    let mut p1 = pkt.to_vec();
+    Some(catch(|| {
+        let (v, _) = ScionRawPacketView::try_from_mut_slice(&mut p1).unwrap();
+        v.header_mut().path_mut().try_reverse().is_ok()
+    })
+    .map(|ok| (ok, p1)))
+}
+
+fn packet_monitors(path0: &[u8], path1: &[u8], rv_ok: Option<bool>, path_type: u8, cls: &str, pvs: &mut Vec<Value>) {
+    let pkt0 = packet_with_path(path0, path_type);
+    match packet_reverse(&pkt0) {
+        None => {}
+        Some(Err(msg)) => pvs.push(pv(format!("Panic:packet.path_mut.try_reverse:{cls}"), format!("{msg} on packet with path {}", hex(&path0[..4.min(path0.len())])))),
+        Some(Ok((ok, p1))) => {
+            if !ok && p1 != pkt0 {
+                pvs.push(pv(format!("ErrNotAtomic:packet.path_mut.try_reverse:{cls}"), format!("reversing the path inside a packet returned Err but the packet changed (path meta {} -> {})", hex(&pkt0[36..40]), hex(&p1[36..40]))));
+            }
+            if ok {
+                let outside_same = p1[..36] == pkt0[..36] && p1[36 + path0.len()..] == pkt0[36 + path0.len()..];
+                if !outside_same {
+                    pvs.push(pv("Disagree:packet.path_mut.try_reverse:outside-bytes", "reversing the path changed packet bytes outside the path"));
+                }
+                if rv_ok == Some(true) && p1[36..36 + path0.len()] != *path1 {
+                    pvs.push(pv("Disagree:packet.path_mut.try_reverse:path", "path reversed inside a packet differs from the stand-alone reversal"));
+                }
+            }
+            if Some(ok) != rv_ok && rv_ok.is_some() {
+                pvs.push(pv("Disagree:packet.path_mut.try_reverse:result", "Ok/Err differs between in-packet and stand-alone reversal"));
+            }
+        }
+    }
+}
+
 fn ia(x: u64) -> IsdAsn {
     IsdAsn(x)
 }
@@ -300,6 +371,8 @@ fn ia(x: u64) -> IsdAsn {
 #[allow(clippy::too_many_arguments)]
 fn wrappers(b0: &[u8], b1: &[u8], rv_ok: Option<bool>, m0: &StandardPath, m1: &StandardPath, rm_ok: Option<bool>, wf: bool, cls: &str, pvs: &mut Vec<Value>) {
     let boxed = |b: &[u8]| StandardPathView::try_from_slice(b).unwrap().0.to_boxed();
+    // the same path inside a packet (ScionHeaderView::path_mut)
+    packet_monitors(b0, b1, rv_ok, 1, cls, pvs);
     // ScionDpPathView::try_reverse / try_into_reversed
     let dv0 = ScionDpPathView::Standard(boxed(b0));
     let mut dv1 = dv0.clone();
@@ -544,6 +617,7 @@ pub fn check_onehop(b0: &[u8]) -> Obs {
         }
         (Err(m), _) | (_, Err(m)) => pvs.push(pv(format!("Panic:DpPath.try_reverse:onehop:{cls}"), m.clone())),
     }
+    packet_monitors(b0, &b1, rv.clone().ok(), 2, cls, &mut pvs);
     let dref = ScionDpPathViewRef::OneHop(v0);
     let qs = catch(|| (dref.first_egress_interface(), dref.last_ingress_interface(), dref.current_egress_interface(), dref.current_ingress_interface(), dref.expiration()));
     match qs {
